@@ -14,8 +14,11 @@ PY = os.environ.get("VERIF_PYTHON", "/venv/bin/python")
 def scratch(patch=None):
     d = tempfile.mkdtemp(prefix="seeded_")
     subprocess.run(["cp", "-r", "/repo/reamber", d + "/reamber"], check=True)
-    for x in ("rsc", "tests"):
-        os.symlink("/repo/" + x, d + "/" + x)
+    os.symlink("/repo/rsc", d + "/rsc")
+    subprocess.run(["cp", "-r", "/repo/tests", d + "/tests"], check=True)
+    for x in ("pytest.ini", "setup.cfg", "pyproject.toml", "tox.ini", "conftest.py"):
+        if os.path.exists("/repo/" + x):
+            shutil.copy("/repo/" + x, d + "/" + x)
     if patch:
         r = subprocess.run(["patch", "-p1", "-s", "-d", d, "-i", patch], capture_output=True, text=True)
         if r.returncode != 0:
@@ -31,7 +34,20 @@ def demo(d, sd):
     return r.returncode, (r.stdout + r.stderr)[-400:]
 
 
+def suite(d):
+    """the repository's own tests on the scratch copy: (passed, failed, reamber path ok)"""
+    r = subprocess.run([PY, "-c", "import reamber, os; print(os.path.dirname(os.path.dirname(reamber.__file__)))"], cwd=d, capture_output=True, text=True,
+                       env=dict(os.environ, PYTHONPATH=d))
+    where = r.stdout.strip().split("\n")[-1]
+    r = subprocess.run([PY, "-m", "pytest", "-q", "-p", "no:cacheprovider", "-n", "8", "tests"], cwd=d, capture_output=True, text=True, timeout=1800,
+                       env=dict(os.environ, PYTHONPATH=d))
+    tail = [l for l in r.stdout.strip().split("\n") if " passed" in l or " failed" in l][-1:] or [r.stdout[-200:]]
+    failed = sorted(l.split(" ")[1] for l in r.stdout.split("\n") if l.startswith("FAILED "))
+    return dict(summary=tail[0].strip(" ="), failed=failed, imported_from=where, ok_path=os.path.realpath(where) == os.path.realpath(d))
+
+
 def main():
+    do_suite = "--suite" in sys.argv
     args = [a for a in sys.argv[1:] if not a.startswith("--")]
     tier = "quick"
     extra = []
@@ -58,6 +74,9 @@ def main():
         try:
             rc1, out1 = demo(d, sd)
             line = dict(seed=sid, property=prop, demo_unpatched_rc=rc0, demo_patched_rc=rc1, checks={}, at=time.strftime("%Y-%m-%d %H:%M"))
+            if do_suite:
+                line["suite_with_patch"] = suite(d)
+                print(f"{sid} suite with patch: {line['suite_with_patch']['summary']} failed={[f.split('::')[-1] for f in line['suite_with_patch']['failed']]} path_ok={line['suite_with_patch']['ok_path']}")
             for c in [prop] + [x for x in extra if x != prop]:
                 t0 = time.time()
                 r = subprocess.run([HERE + "/vcheck", c, "--tier", tier], capture_output=True, text=True,
